@@ -156,3 +156,74 @@ def replay_world(r, prop, judges_=(), oracles=None):
     res = swarm_job({"world": rep["world"], "prop": prop, "judges": list(judges_), "oracles": oracles})
     r.absorb(res)
     return r.finish("replay of one recorded world")
+
+
+# ----------------------------------------------------------------------------
+ESSENTIAL = {"nlive", "seed", "plot", "flow_config", "training_config", "min_samples", "max_iteration"}
+
+
+def _drop_fault(world, i):
+    import copy
+
+    w = copy.deepcopy(world)
+    f = w["plan"].pop(i)
+    if f["kind"].startswith("kill") or f["kind"] == "signal":
+        for g in w["plan"]:
+            if g.get("inc", 0) > f.get("inc", 0):
+                g["inc"] -= 1
+        if w.get("downtimes"):
+            w["downtimes"] = w["downtimes"][:-1]
+    return w
+
+
+def make_minimiser(prop, judges_=(), oracles=None, max_runs=40):
+    """Delta-debugging over the fault plan, then a simplification pass over the
+    scenario knobs; every candidate is re-executed and kept only if the same
+    violation key persists."""
+    import copy
+
+    def keys_of(world):
+        res = swarm_job({"world": world, "prop": prop, "judges": list(judges_), "oracles": oracles})
+        return {(v.get("key") or v["oracle"]) for v in res["violations"]}, res.get("digest")
+
+    def minimise(v):
+        if not v.get("world") or "scenario" not in v["world"]:
+            return None
+        key = v["key"]
+        world = copy.deepcopy(v["world"])
+        runs = 1
+        ks, dig = keys_of(world)
+        if key not in ks:
+            return {"replay_confirmed": False}
+        changed = True
+        while changed and runs < max_runs:
+            changed = False
+            for i in range(len(world.get("plan", []))):
+                w2 = _drop_fault(world, i)
+                runs += 1
+                ks2, d2 = keys_of(w2)
+                if key in ks2:
+                    world, dig, changed = w2, d2, True
+                    break
+        kw = world["scenario"]["kwargs"]
+        for k in sorted(kw):
+            if k in ESSENTIAL or runs >= max_runs:
+                continue
+            w2 = copy.deepcopy(world)
+            del w2["scenario"]["kwargs"][k]
+            runs += 1
+            ks2, d2 = keys_of(w2)
+            if key in ks2:
+                world, dig = w2, d2
+        if world["scenario"].get("pool") and runs < max_runs:
+            w2 = copy.deepcopy(world)
+            w2["scenario"].pop("pool")
+            runs += 1
+            ks2, d2 = keys_of(w2)
+            if key in ks2:
+                world, dig = w2, d2
+        # the minimised file must reproduce in a fresh execution
+        ks3, d3 = keys_of(world)
+        return {"world": world, "digest": d3, "minimise_runs": runs + 1, "replay_confirmed": key in ks3 and d3 == dig}
+
+    return minimise
